@@ -110,6 +110,13 @@ func LoadWorld() (*World, error) {
 				}
 			}
 		}
+		if len(c.Serves) > 0 {
+			for _, cl := range c.Clauses {
+				if len(cl.Props) == 0 {
+					cl.OnlyUnder = c.Serves
+				}
+			}
+		}
 	}
 	return w, nil
 }
